@@ -106,7 +106,7 @@ class Runs:
             vals = [r["errs"][key] for r in reps if "errs" in r]
             m, s, allowed, flagged = ens.bias_test(vals, case["alpha"], A_COEF, A_CAP)
         if flagged:
-            raise Violation(describe(cell, key, m, s, allowed, len(vals), reps), sig=signature(cell, key, m, reps))
+            raise Violation(describe(cell, key, m, s, allowed, len(vals), reps), sig=attribute_trimming(signature(cell, key, m, reps), key, m, reps))
         return {}
 
 
@@ -136,6 +136,18 @@ def signature(cell, key, m, reps):
             "crossing": ">1e-3" if cross > 1e-3 else "<=1e-3",
             # the recorded findings K1-K3 are biases of a few per cent / a tenth of a posterior sd; anything gross is something else
             "magnitude": "moderate" if abs(m) <= 0.25 else "gross"}
+
+
+def attribute_trimming(sig, key, m, reps):
+    """Is a bias of the default (trimmed) output the default trimming itself (finding K2)? Then the trimmed-minus-untrimmed
+    difference on the same runs - which carries far less Monte-Carlo noise - is significant on its own and has the sign of the bias."""
+    good = [r for r in reps if "errs" in r]
+    if key.startswith("trimmed:") and good and ("untrimmed:" + key[8:]) in good[0]["errs"]:
+        dv = np.array([r["errs"][key] - r["errs"]["untrimmed:" + key[8:]] for r in good])
+        md, sed = float(dv.mean()), float(dv.std(ddof=1)) / math.sqrt(len(dv))
+        if (md > 0) == (m > 0) and abs(md) > float(ens.stats.t.isf(1e-4 / 2, len(dv) - 1)) * sed:
+            sig["attributed"] = "trimming"
+    return sig
 
 
 def describe(cell, key, m, s, allowed, R, reps):
@@ -214,7 +226,8 @@ def finish(rec, tier, seed, jobs):
             if not fl or (m > 0) != (m1 > 0):
                 rec.classes[f"{CHECK}:stage1-flag-not-confirmed"] += 1
                 continue
-            v = Violation(describe(cell, key, m, s, allowed, len(ok2), ok2), sig=signature(cell, key, m, ok2))
+            sig = attribute_trimming(signature(cell, key, m, ok2), key, m, ok2)
+            v = Violation(describe(cell, key, m, s, allowed, len(ok2), ok2), sig=sig)
             f = rec.classify(CHECK, v)
             if f is not None:
                 rec.known(f, CHECK, v)
